@@ -50,9 +50,9 @@ func configs(quick bool) []Cfg {
 	againT := []string{"propose:min", "propose:max", "force:min", "force:max", "probe", "dkg", "spoil", "sig", "block", "jumpexec", "expire"}
 	return []Cfg{
 		{Name: "lifecycle", CurN: 3, CurT: 2, IncN: 2, IncT: 2, SigningPeriod: 2, MaxSigningAttempt: 1, CreationPeriod: 5,
-			InitDE: 3, MaxProposals: 1, MaxReq: 0, MaxTransitionSec: 30, FeePerSigner: 10, Events: life, Depth: 15},
+			InitDE: 3, MaxProposals: 1, MaxReq: 0, MaxTransitionSec: 30, FeePerSigner: 10, Events: life, Depth: 18},
 		{Name: "lifecycle-per-message", CurN: 3, CurT: 2, IncN: 2, IncT: 2, SigningPeriod: 2, MaxSigningAttempt: 2, CreationPeriod: 6,
-			InitDE: 3, MaxProposals: 1, MaxReq: 0, MaxTransitionSec: 45, FeePerSigner: 10, Events: lifeMsg, Depth: 16},
+			InitDE: 3, MaxProposals: 1, MaxReq: 0, MaxTransitionSec: 45, FeePerSigner: 10, Events: lifeMsg, Depth: 20},
 		{Name: "lifecycle-same-accounts", CurN: 2, CurT: 2, IncN: 2, IncT: 1, SameAccounts: true, SigningPeriod: 2, MaxSigningAttempt: 1, CreationPeriod: 5,
 			InitDE: 3, MaxProposals: 1, MaxReq: 1, MaxTransitionSec: 30, FeePerSigner: 10, Events: append(append([]string{}, life...), "req"), Depth: 13},
 		{Name: "two-proposals-stale-keygen", CurN: 2, CurT: 1, IncN: 2, IncT: 1, SigningPeriod: 2, MaxSigningAttempt: 1, CreationPeriod: 6,
@@ -78,7 +78,28 @@ func init() {
 	engine.Register(&engine.Check{
 		ID: "C18",
 		Run: func(r *engine.Run) {
-			r.Bound = "see configs"
+			r.Bound = "current group t-of-n in {2/3, 2/2, 1/2, none} installed by real DKGs (optionally a former current group kept as a target for forced transitions); <=1 (quick) / <=2 (thorough) accepted proposals per path, each a fresh incoming group 1..2-of-2 (3 in one thorough configuration) whose DKG is driven per round (per message in one thorough configuration) incl. one corrupted share + complaint, stalled until expiry, or finishing after the exec time; exec time in {now+min, now+max, now-1s, now+max+1s}; block times +3s or placed at exec-1s / exec / exec+3s; hand-over signing by each assigned member, timed out, retried, failed or impossible (no nonces); <=1 (quick) / <=2 (thorough) paid or governance signature requests in every phase with and without nonces of the incoming members; re-activation of deactivated members; depth 7-12 (quick) / 9-20 (thorough); signing_period 1-3, max_signing_attempt 1-3, creation_period 3-8 blocks"
+			r.Assumptions = []string{
+				"progress of the tss module itself is read back as given: group status (DKG soundness is C04's subject), signing status, committees and partial-signature verification (C03/C09/C10), eligibility = active member holding a nonce pair",
+				"key generation that completes in a block whose time is already past the exec time counts as too late (the transition is dropped); completing exactly at the exec time is in time",
+				"a transition whose hand-over signing cannot be created (too few eligible current members) or fails is dropped at that block end, not only at the exec time",
+				"member list: exactly the current group's members whenever no transition awaits execution (so in particular right after an execution); while one awaits execution only 'superset of current, subset of current+incoming' is asserted",
+				"CurrentGroup.ActiveTime and the is_active flags of members are not asserted (activity is C10's subject)",
+				"block rewards to members switched off (bandtss RewardPercentage=0) so that balances isolate signing fees; requester always funded; fee limit = exact price (limits are C13's subject)",
+				"Tx seam = ValidateBasic + message-router handler in a cache context; the authority check of the governance messages is not exercised (sender is always the authority)",
+				"LastCommitHash is empty in the harness, so a group's DKG context depends only on its id; member-side DKG material is generated once per configuration",
+			}
+			r.Required = []string{
+				"executed", "executed:forced", "executed:first-group",
+				"dropped:exec-time-reached:creating-group", "dropped:exec-time-reached:waiting-sign",
+				"dropped:dkg-failed", "dropped:dkg-expired", "dropped:handover-signing-failed", "dropped:handover-signing-impossible",
+				"handover-signed", "handover-signing-timeout-retry", "dkg-finished-after-exec-time", "dkg:complaint:COMPLAINT_STATUS_SUCCESS",
+				"proposal-while-in-progress:rejected", "forced-while-in-progress:rejected", "forced-to-unfinished-group:rejected",
+				"proposal-exec-time-past:rejected", "proposal-exec-time-beyond-max:rejected",
+				"req-during-handover:also-put-to-incoming-group", "req-during-handover:incoming-group-unable",
+				"current-group-signing-success:paid", "current-group-signing-success:paid:after-execution", "incoming-group-signing-success:unpaid",
+				"act:ok",
+			}
 			// internal caps per configuration (never an oracle): a configuration that hits its cap is
 			// reported as exhaustive:false and the next one still runs
 			per := 5 * time.Minute
